@@ -56,7 +56,7 @@ Failed(e, rp, ix, p) ==
   \cup (IF e.orphans # <<>> THEN {"orphans"} ELSE {})
   \cup (IF ~c.force /\ (~e.straced \/ e.muts # <<>> \/ ~e.snapeq) THEN {"side-effect"} ELSE {})
   \cup (IF ~e.childsame THEN {"unstable"} ELSE {})
-  \cup (IF e.passf # (~c.force /\ e.ok) THEN {"wording"} ELSE {})
+  \cup (IF e.passf # (~c.force /\ e.ok) \/ ~e.verbsok THEN {"wording"} ELSE {})
   \cup (IF c.force /\ p.valid /\ p.c = [c EXCEPT !.force = FALSE]
            /\ ~( /\ p.ok = e.ok
                  /\ p.ann = ann
